@@ -25,6 +25,15 @@ def _is_ast_pointee(ty):
             or t.startswith("alloc::vec::Vec<core::option::Option<" + AST))
 
 
+def _empty_head_splice(mb, e):
+    """`v.splice(0..0, items)`: replaces the empty range at the head, i.e. a pure insertion"""
+    from ..cfg import const_range_of
+    if not e["callee"].endswith("Vec::<T, A>::splice"):
+        return False
+    args = e["node"].get("args", [])
+    return len(args) >= 2 and const_range_of(mb, args[1]) == (0, 0)
+
+
 def node_events(ctx, mb, node_params):
     """mutation events on memory reachable from the node parameter(s)"""
     fl = flow_of(ctx, mb)
@@ -106,7 +115,7 @@ def r09_1(ctx):
                         ob(key, True, loc, "write inside a JSX node (%s), which is replaced as a whole" % _pointee(node_ty).split("::")[-1])
                     elif cal == inj_path:
                         ob(key, True, loc, "delegated to the defineComponent injector (gates: R20.1)")
-                    elif PURE_INSERT.search(cal) and re.match(r"&mut alloc::vec::Vec<swc_ecma_ast::(Stmt|ModuleItem)>", e["arg_ty"]):
+                    elif (PURE_INSERT.search(cal) or _empty_head_splice(mb, e)) and re.match(r"&mut alloc::vec::Vec<swc_ecma_ast::(Stmt|ModuleItem)>", e["arg_ty"]):
                         # pure insertion into a statement list: needs a registry-non-empty guard
                         cf = controlling_fields(ctx, mb, e["bb"])
                         regs = sorted(f.strip(".").split(".")[0] for f in cf if f.strip(".").split(".")[0] in REGISTRIES)
